@@ -1826,8 +1826,11 @@ func DerefFunction(name string) ZlispUserFunction {
 				return
 			case *SexpHash:
 				//P("ptr.PointedToType = '%#v'", ptr.PointedToType)
-				pt := payload.Type()
+				pt := payload.definedType()
 				tt := ptr.PointedToType
+				if target, isHash := ptr.Target.(*SexpHash); isHash {
+					tt = target.definedType()
+				}
 				if tt == pt && tt.RegisteredName == pt.RegisteredName {
 					//P("have matching type!: %v", tt.RegisteredName)
 					ptr.Target.(*SexpHash).CloneFrom(payload)
